@@ -101,6 +101,18 @@ Proof.
 Qed.
 Print Assumptions C02_no_ghosts.
 
+(* "...or is no longer stored": after RemoveTriples(ts), for every lookup kind, argument tuple and options value, no
+   result comes from a triple with the key of a removed one *)
+Theorem C02_removed_never_returned : forall U ops h g0 g ts t q lo r,
+  (forall a b, In a U -> In b U -> trank a = trank b -> a = b) ->
+  (forall o x, In o ops -> In x (match o with OAdd _ ts => ts | _ => [] end) -> In x U) ->
+  graph_of (run ops) h = Some g0 ->
+  graph_of (run (ops ++ [ORemove h ts])) h = Some g ->
+  In t ts -> In r (results (lookup q lo g)) ->
+  exists t', r = q_proj q t' /\ aget tkey_eqb (tkey_of t') (idx g) = Some t' /\ tkey_of t' <> tkey_of t.
+Proof. exact removed_never_returned. Qed.
+Print Assumptions C02_removed_never_returned.
+
 (* the bucket chosen by each lookup is exactly the part of the master index with those key components *)
 Theorem C02_bucket_is_projection : forall ops h g q k, graph_of (run ops) h = Some g ->
   aget tkey_eqb k (q_bucket q g) = if kmatch q k then aget tkey_eqb k (idx g) else None.
@@ -108,7 +120,7 @@ Proof. intros ops h g q k Hg. apply bucket_get. eapply GInv_reachable; eauto. Qe
 Print Assumptions C02_bucket_is_projection.
 
 (* ---- before fix F6 (commit 4c0004f in /repo): the kind of the given predicate was ignored ------------------------ *)
-Definition w_temporal := {| tsub := 0; tpred := {| pid := 0; panchor := Some {| ns := 5; off := 0 |} |}; tobj := ONode 2; trank := 0 |}.
+Definition w_temporal := {| tsub := 0; tpred := {| pid := 0; panchor := Some {| ns := 5; off := 0; uns := 5 |} |}; tobj := ONode 2; trank := 0 |}.
 Definition w_immutable := {| tsub := 0; tpred := {| pid := 0; panchor := None |}; tobj := ONode 3; trank := 1 |}.
 Definition w_ops := [ONew 0; OAdd 0 [w_temporal; w_immutable]].
 
@@ -127,7 +139,7 @@ Example C02_nonvacuous :
   (forall o t, In o w_ops -> In t (match o with OAdd _ ts => ts | _ => [] end) -> In t [w_temporal; w_immutable]) /\
   (forall g, graph_of (run w_ops) 0 = Some g ->
      lookup (QObjects 0 {| pid := 0; panchor := None |}) default_lo g = LOk [RsObj (ONode 3)] /\
-     lookup (QObjects 0 {| pid := 0; panchor := Some {| ns := 5; off := 7200 |} |}) default_lo g = LOk [RsObj (ONode 2)] /\
+     lookup (QObjects 0 {| pid := 0; panchor := Some {| ns := 5; off := 7200; uns := 5 |} |}) default_lo g = LOk [RsObj (ONode 2)] /\
      lookup (QTrS 0) default_lo g = LOk [RsTriple w_temporal; RsTriple w_immutable]).
 Proof.
   split; [|split].
